@@ -7,16 +7,27 @@ import pipeline
 import talgen
 
 PID = 'C06'
-PROOF_MODULES = ['ChamProofs.Props.C06', 'ChamProofs.Ties']
+PROOF_MODULES = ['ChamProofs.Props.C06', 'ChamProofs.Ties', 'ChamProofs.Props.C06Regex', 'ChamProofs.Props.C06Loop']
 THEOREMS = ['ChamVerif.undouble_no_dollar', 'ChamVerif.undouble_pair', 'ChamVerif.scan_append', 'ChamVerif.C06_own_brace',
-            'ChamVerif.tie_builder_defaults']
+            'ChamVerif.tie_builder_defaults', 'ChamVerif.C06Loop.tie_bracesReq', 'ChamVerif.C06Loop.star_any', 'ChamVerif.C06Loop.matchAt_shape',
+            'ChamVerif.C06Loop.search_braces', 'ChamVerif.C06Loop.search_no_dollar', 'ChamVerif.C06Loop.candidate_round',
+            'ChamVerif.C06Loop.C06_candidate_own_brace', 'ChamVerif.C06Loop.C06_interp_step']
 LEVEL_TEXT = ('Proved in Lean: the bracket/quote scanner the model uses to reject candidates is compositional (scan_append) and therefore an '
               'expression with balanced brackets and closed string literals followed by "}" and anything else is certainly invalid '
               '(C06_own_brace): among the candidates "${ e } … }" none longer than the one ending at the expression\'s own closing brace can be '
               'accepted, whatever braces, quotes or "$" the expression contains; "$$" collapses to "$" and text without "$" is untouched '
-              '(undouble_*). The Interpolator loop itself (regex search over the regenerated braces regexes, candidate shrinking, entity '
-              'decoding, parity of the "$" run) is an executable model tied to the code by end-to-end correspondence, and judged by a '
-              'constructive oracle that builds texts from part lists in every interpolation context and under every on/off switch.')
+              '(undouble_*). The Interpolator loop, on the regex regenerated from the live class (tie_bracesReq: it is "\\$({(?P<expression>.*)})" with '
+              'DOTALL, re-checked every run): for every text the first match starts at the first "$" that is followed by "{…}" and runs to the '
+              'last "}" of the text (search_braces, from star_any: the greedy ".*" of the backtracking engine tries its continuation from the end of '
+              'the input downwards; search_no_dollar: no "$", no match); each round of the candidate loop takes everything up to that last "}" '
+              'and either accepts it or cuts the text there (candidate_round); hence in pre ++ "${" ++ e ++ "}" ++ post, for every pre without "$", '
+              'every e and every post — whatever braces they contain —, if the longer candidates are rejected with an ExpressionError and e compiles, '
+              'the loop returns exactly e and consumes exactly "${e}" (C06_candidate_own_brace, induction over the "}" of post; non-vacuous: the '
+              'premises are kernel-evaluated for a concrete text on the regenerated regexes), and compileInterp yields the literal, the expression part '
+              'and the parts of post (C06_interp_step). Still by correspondence only: the optional-braces regex ($name), entity decoding inside '
+              'expressions, the parity rule for a run of "$" before "${", and the premise "longer candidates are rejected" for the Python grammar '
+              '(ast.parse is the judge there; differential-tested every run). A constructive oracle builds texts from part lists in every '
+              'interpolation context and under every on/off switch.')
 LEVEL_NOTE = ('Trusted: Lean kernel; that Python rejects unbalanced brackets (differential-tested against ast.parse every run); the '
               'interpreter model. Known finding D-06a: "$$" is not collapsed in attribute values, comments and CDATA that contain no "${".')
 RULE = ('texts built from part lists: literal runs (with $, $$, {, }, quotes, entities) and ${expr} parts whose expressions are rich in '
@@ -196,7 +207,8 @@ def correspondence(ctx):
     for _ in range(ctx.budget(1200, 40000)):
         g = talgen.TalGen(ctx.rng, depth=ctx.rng.choice([1, 2]), features={'interp', 'define', 'content', 'attributes', 'condition'})
         gen.append(g.template())
-    pipeline.run_cases(ctx, gen, what='interpolation')
+    nests = [nest_case(ctx.rng)[0] for _ in range(ctx.budget(200, 6000))]
+    pipeline.run_cases(ctx, gen + nests, what='interpolation')
     # the own-brace hypothesis against Python itself: balanced e  =>  e + '}' + x is a SyntaxError
     bad = 0
     for e, _ in EXPRS:
@@ -211,7 +223,50 @@ def correspondence(ctx):
             ctx.count('correspondence_cases')
 
 
+def nest_case(rng):
+    """a tree of elements, some of which switch interpolation on or off for their subtree, with text, comment and CDATA leaves
+    before, between and after the switching children: a leaf is interpolated iff the nearest enclosing switch (or the default) says so,
+    and only then is its expression evaluated"""
+    cnt = [0]
+    log = []
+
+    def leaf(on):
+        cnt[0] += 1
+        i = cnt[0]
+        e = "${R('k%d', %d)}" % (i, i)
+        shown = str(i) if on else e
+        if on:
+            log.append('k%d' % i)
+        kind = rng.choice(['text', 'text', 'comment', 'cdata'])
+        if kind == 'comment':
+            return '<!-- c%s -->' % e, '<!-- c%s -->' % shown
+        if kind == 'cdata':
+            return '<![CDATA[d%s]]>' % e, '<![CDATA[d%s]]>' % shown
+        return 't%s;' % e, 't%s;' % shown
+
+    def node(on, depth):
+        setting = rng.choice([None, None, 'true', 'false', 'on', 'off'])
+        on2 = on if setting is None else setting in ('true', 'on')
+        src = '<div%s>' % (' meta:interpolation="%s"' % setting if setting else '')
+        exp = '<div>'
+        for _ in range(rng.randint(1, 4)):
+            a, b = node(on2, depth - 1) if (depth > 0 and rng.random() < 0.5) else leaf(on2)
+            src += a
+            exp += b
+        return src + '</div>', exp + '</div>'
+    s, e = node(True, 3)
+    a, b = leaf(True)
+    return {'src': s + a, 'vars': [['R', {'fn': 'R'}]], 'objs': [], 'cfg': {}}, e + b, list(log)
+
+
 def oracle(ctx):
+    nests = [nest_case(ctx.rng) for _ in range(ctx.budget(400, 15000))]
+    for (case, exp, log), impl in zip(nests, pipeline.impl_many([n[0] for n in nests])):
+        ctx.count('evaluations')
+        if impl.get('out') != exp or impl.get('log') != log:
+            ctx.violation('meta:interpolation: text, comments and CDATA of a subtree are interpolated iff the nearest enclosing switch says so — '
+                          'also after a child that switched it the other way has closed — and a switched-off expression is not evaluated',
+                          case, expected={'out': exp, 'log': log}, actual=impl)
     cases = []
     while len(cases) < ctx.budget(2500, 80000):
         c = make_case(ctx.rng)
